@@ -328,6 +328,30 @@ func (p *prover) scanStable() {
 			p.immutableField[f] = true
 		}
 	}
+	// exported fields of third-party struct types that the module reads but never writes (yaml.Node.Content …):
+	// assumed not to change between two reads of the same object within one function
+	for fn := range p.c.P.allFuncs {
+		if fn.Blocks == nil || !strings.HasPrefix(fnPkgPath(fn), modPath) || nonUniversePkgs[fnPkgPath(fn)] {
+			continue
+		}
+		eachInstr(fn, func(in ssa.Instruction) {
+			fa, ok := in.(*ssa.FieldAddr)
+			if !ok {
+				return
+			}
+			name := fieldName(fa.X.Type(), fa.Field)
+			if name == "" || seenF[name] || strings.HasPrefix(name, "?") {
+				return
+			}
+			t := fa.X.Type()
+			if pt, ok := t.Underlying().(*types.Pointer); ok {
+				t = pt.Elem()
+			}
+			if nt, ok := t.(*types.Named); ok && nt.Obj().Pkg() != nil && !strings.HasPrefix(nt.Obj().Pkg().Path(), modPath) {
+				p.immutableField[name] = true
+			}
+		})
+	}
 }
 
 // readOnlyParamCopy: the alloc holds a parameter (spilled at entry) and is only read afterwards
@@ -1022,6 +1046,31 @@ func (p *prover) condFacts(s *factSet, cond ssa.Value, truth bool, seen map[term
 			continue
 		}
 		break
+	}
+	// short-circuit || / && lowered to a phi of booleans: when the phi has the value that none of its constant edges
+	// carries, control came through the one non-constant edge, i.e. through the failing (resp. succeeding) side of
+	// every earlier operand
+	if ph, ok := cond.(*ssa.Phi); ok {
+		nonConst := -1
+		okShape := true
+		for i, e := range ph.Edges {
+			if k, isK := e.(*ssa.Const); isK && k.Value != nil && k.Value.Kind() == constant.Bool {
+				if constant.BoolVal(k.Value) == truth {
+					okShape = false
+				}
+				continue
+			}
+			if nonConst >= 0 {
+				okShape = false
+			}
+			nonConst = i
+		}
+		if okShape && nonConst >= 0 && len(seen) < 4000 {
+			pred := ph.Block().Preds[nonConst]
+			p.edgeFacts(s, ph.Parent(), pred.Instrs[len(pred.Instrs)-1], seen)
+			p.condFacts(s, ph.Edges[nonConst], truth, seen)
+		}
+		return
 	}
 	bo, ok := cond.(*ssa.BinOp)
 	if !ok {
@@ -1898,6 +1947,7 @@ func (p *prover) preconds(fn *ssa.Function) []fact {
 			}
 		case isSeqType(x.Type()):
 			cands = append(cands, fact{zeroT(), lenT(x), -1})
+			tight = append(tight, fact{zeroT(), lenT(x), 0})
 			if sl, ok := x.Type().Underlying().(*types.Slice); ok {
 				if b, ok := sl.Elem().Underlying().(*types.Basic); ok && b.Kind() == types.Bool {
 					cands = append(cands, fact{zeroT(), lenT(x), -256})
